@@ -68,7 +68,11 @@ def lower : Handler := fun j => do
     let ignore := match j.getObjVal? "ignore" with
       | .ok (Json.bool b) => b
       | _ => false
-    match (if ignore then transformDmaIgnore src dst rs rd else transformDma byValue src dst rs rd) with
+    let pre42 := match j.getObjVal? "pre42" with
+      | .ok (Json.bool b) => b
+      | _ => false
+    match (if ignore then transformDmaIgnore src dst rs rd
+           else if pre42 then transformDmaPre42 byValue src dst rs rd else transformDma byValue src dst rs rd) with
     | .ok l =>
       return Json.mkObj [("path", Json.str "transform"), ("prog", jProg l.prog), ("tS", jTsl l.tS), ("tD", jTsl l.tD),
         ("lcb", jList jStride l.lcb), ("entries", jList (jList jEntry) l.nested),
